@@ -234,6 +234,33 @@ def guarded(prop, acc, case, fn, *args, **kw):
     return None
 
 
+class loud(object):
+    """
+    Run a block with the library's event printing switched ON (its default), output discarded. The harness normally
+    silences it; code that only runs when events are printed must be exercised too.
+    """
+
+    def __init__(self, on=True):
+        self.on = on
+
+    def __enter__(self):
+        if self.on:
+            from qstrader import settings
+            self._out = sys.stdout
+            self._null = open(os.devnull, 'w')
+            sys.stdout = self._null
+            settings.set_print_events(True)
+        return self
+
+    def __exit__(self, *exc):
+        if self.on:
+            from qstrader import settings
+            settings.set_print_events(False)
+            sys.stdout = self._out
+            self._null.close()
+        return False
+
+
 class Acc(object):
     """What one shard (or a whole run, after merging) observed."""
 
